@@ -24,6 +24,8 @@ def generate(rng, tier="quick"):
         cfg["nodes"][1]["pw"] = gen.gen_bytes(rng).hex()
     if rng.random() < 0.25:
         cfg["nodes"][rng.randrange(2)]["impl"] = "model"
+    if rng.random() < 0.04:
+        cfg["big_endian_host"] = True       # the wire format must not depend on the host's byte order
     pc = rng.choice([0.0, 0.4, 0.7])
     steps = gen.interleave(rng, [gen.gen_lifecycle(rng, 0, 3, pc), gen.gen_lifecycle(rng, 1, 3, pc)])
     order = [(1, 0), (0, 1)]
